@@ -9,6 +9,8 @@ import (
 	"sort"
 
 	"github.com/Oneledger/protocol/action"
+	ethcrypto "github.com/ethereum/go-ethereum/crypto"
+
 	aeth "github.com/Oneledger/protocol/action/eth"
 	aevid "github.com/Oneledger/protocol/action/evidence"
 	agov "github.com/Oneledger/protocol/action/governance"
@@ -48,6 +50,8 @@ type Gen struct {
 	Kinds     map[string]int
 	EthExts   []*genExt // external Ethereum transactions submitted so far (only when the genesis has an ETH option)
 	ethNonce  uint64
+	olvmNonce map[int]uint64 // next nonce per Ethereum-keyed account, as far as the generator can tell
+	olvmCodes []keys.Address // addresses at which the generator believes it has created a contract
 }
 
 // genExt is one submitted Ethereum-side transaction and who has reported on it.
@@ -123,9 +127,10 @@ func pid(s string) governance.ProposalID {
 type Weights struct {
 	Transfer, Staking, Deleg, Rewards, Gov, Evidence, Ons int
 	Eth                                                   int // only drawn when the world's genesis carries an ETH chain-driver option
+	Olvm                                                  int // only drawn when the world has Ethereum-keyed accounts and the fork is active
 }
 
-func AllWeights() Weights { return Weights{10, 8, 10, 4, 12, 6, 10, 14} }
+func AllWeights() Weights { return Weights{10, 8, 10, 4, 12, 6, 10, 14, 22} }
 
 // Next produces one transaction.
 func (g *Gen) Next(wt Weights) GenTx {
@@ -133,6 +138,11 @@ func (g *Gen) Next(wt Weights) GenTx {
 	if g.W.P.ETH != nil && g.W.P.Witnesses > 0 && wt.Eth > 0 {
 		if g.R.Intn(tot+wt.Eth) >= tot {
 			return g.eth()
+		}
+	}
+	if g.W.Olvm != nil && wt.Olvm > 0 && g.Height >= g.W.P.Frankenstein {
+		if g.R.Intn(tot+wt.Olvm) >= tot {
+			return g.olvm()
 		}
 	}
 	x := g.R.Intn(tot)
@@ -443,4 +453,77 @@ func minInt(a, b int) int {
 		return a
 	}
 	return b
+}
+
+// olvm produces OLVM transactions of the Ethereum-keyed accounts: plain transfers (also to
+// native-keyed accounts), contract creations (a storing contract, a reverting one, one that burns
+// its gas, one that self-destructs), calls of the created contracts, and refused variants (gas
+// below the intrinsic gas, a memo that is not the nonce, more value than the account holds, a
+// signature of another key). The generator does not see results, so its nonces are a guess; a
+// nonce above the state nonce is executed all the same.
+func (g *Gen) olvm() GenTx {
+	ow := g.W.Olvm
+	if g.olvmNonce == nil {
+		g.olvmNonce = map[int]uint64{}
+	}
+	i := g.R.Intn(len(ow.Eth))
+	from := ow.Eth[i]
+	nonce := g.olvmNonce[i]
+	price := big.NewInt(10000000000)
+	mk := func(kind, note string, to *keys.Address, value int64, data []byte, gas int64, tw OlvmTweak, bump bool) GenTx {
+		g.Kinds[kind]++
+		if bump {
+			g.olvmNonce[i] = nonce + 1
+		}
+		return GenTx{Kind: kind, Note: note, Bytes: ow.OlvmTx(from, to, nonce, big.NewInt(value), data, gas, price, tw), Signer: []keys.Address{from.Addr}}
+	}
+	target := func() *keys.Address {
+		var a keys.Address
+		switch g.R.Intn(4) {
+		case 0:
+			a = g.acct().Addr
+		case 1:
+			if len(g.olvmCodes) > 0 {
+				a = g.olvmCodes[g.R.Intn(len(g.olvmCodes))]
+				break
+			}
+			fallthrough
+		default:
+			a = ow.Eth[g.R.Intn(len(ow.Eth))].Addr
+		}
+		return &a
+	}
+	switch x := g.R.Intn(20); {
+	case x < 6:
+		return mk("OLVM_SEND", "valid", target(), int64(1+g.R.Intn(1000)), nil, 21000+int64(g.R.Intn(3))*10000, OlvmTweak{}, true)
+	case x < 9:
+		codes := [][]byte{CodeStore42(), initCode(rtRevert()), initCode(rtLoop()), initCode(rtPayback()), initCode(rtDestruct(ow.Eth[0].Addr))}
+		c := codes[g.R.Intn(len(codes))]
+		g.olvmCodes = append(g.olvmCodes, keys.Address(ethcrypto.CreateAddress(from.Eth(), nonce).Bytes()))
+		return mk("OLVM_CREATE", "valid", nil, int64(g.R.Intn(2)), c, 200000, OlvmTweak{}, true)
+	case x < 14 && len(g.olvmCodes) > 0:
+		to := g.olvmCodes[g.R.Intn(len(g.olvmCodes))]
+		var data []byte
+		if g.R.Bool() {
+			data = []byte{1}
+		}
+		return mk("OLVM_CALL", "valid", &to, int64(g.R.Intn(50)), data, 60000+int64(g.R.Intn(3))*20000, OlvmTweak{}, true)
+	case x < 15:
+		return mk("OLVM_SEND", "low-gas", target(), 1, nil, 20000, OlvmTweak{}, false)
+	case x < 16:
+		m := fmt.Sprintf("0%d", nonce)
+		return mk("OLVM_SEND", "memo-not-nonce", target(), 1, nil, 21000, OlvmTweak{Memo: &m}, false)
+	case x < 17:
+		return mk("OLVM_SEND", "more-than-balance", target(), 1, nil, 21000, OlvmTweak{SignKey: ow.Eth[(i+1)%len(ow.Eth)]}, false)
+	case x < 18:
+		// all the account holds: the gas cannot be paid on top
+		return mk("OLVM_SEND", "value-is-whole-balance", target(), 1000000000000000000, nil, 21000, OlvmTweak{}, false)
+	default:
+		// out of gas in a call: executed, reverted, all gas charged
+		to := ow.Eth[g.R.Intn(len(ow.Eth))].Addr
+		if len(g.olvmCodes) > 0 {
+			to = g.olvmCodes[g.R.Intn(len(g.olvmCodes))]
+		}
+		return mk("OLVM_CALL", "tight-gas", &to, 0, []byte{1, 2, 3}, 21100+int64(g.R.Intn(400)), OlvmTweak{}, true)
+	}
 }
